@@ -8,6 +8,7 @@ import Enc.Lemmas.ProtoLiberalMap
 import Enc.Lemmas.ProtoDepth
 import Enc.Lemmas.ProtoNamedMain
 import Enc.Lemmas.ProtoArray
+import Enc.Lemmas.ProtoPtrsMain
 /-!
 # C12 — proto bytes are standard protobuf wire format, both ways
 Property theorems only.
@@ -52,8 +53,9 @@ float32/64, string, []byte, byte arrays `[N]byte` (one LEN record of N bytes; th
 elided), nested messages, pointers to those scalars, to byte arrays and to messages, and repeated fields of
 scalars, []byte, byte arrays and messages; field numbers 1…65535, pairwise distinct. `hasType`: value shapes and ranges.
 `tagAgree` (model and specification read the struct tag alike) is proved for untagged fields (`tagAgree_empty`) and is
-a decidable hypothesis for tagged ones. Maps: `tyOKM` below; defined (named) types: `tyOK2`/`tyOKM2` at the end.
-Outside the universe: `[]*T`, `**T`, `*[]T`, RawMessage (differential only) and the shapes of the known findings. -/
+a decidable hypothesis for tagged ones. Maps: `tyOKM` below; defined (named) types: `tyOK2`/`tyOKM2`; repeated pointers `[]*T`
+and pointer chains `**T`: `tyOK3`/`tyOKM3` at the end.
+Outside the universe: `*[]T`, RawMessage (differential only) and the shapes of the known findings. -/
 
 open Lemmas.ProtoWire in
 /-- **MAIN (bytes).** What `Marshal` writes for a message is exactly the concatenation of the reference encodings of its
@@ -274,5 +276,93 @@ theorem iff_needs_noArr :
     (by rw [Lemmas.ProtoDepth.unmarshal_eq_unmarshalU _ _ hdep]; exact long_model)
   rw [long_ref] at this
   cases this
+
+/-! ## repeated pointers `[]*T` and pointer chains `**T` (proofs in Enc/Lemmas/ProtoPtrs*.lean)
+
+Universes `tyOK3 ⊇ tyOK2`, `tyOKM3 ⊇ tyOKM2`: see Props/C03. The record lists are those of the reduced type on the reduced
+value (`allRecords3 wz fs vs = allRecords wz (rfields fs) (rvals fs vs)`: a `[]*T` denotes one record per pointee, a `**T` the
+record of its pointee), `ptrsOK3` excludes nil elements and chains ending in nil. In the liberal direction there is nothing to
+exclude: whatever the reference decoder accepts for a `[]*T` / `**T` field (it wraps what it reads in the pointers of the
+type), `Unmarshal` returns the same value. -/
+
+open Lemmas.ProtoWire Lemmas.ProtoPtrs in
+/-- bytes -/
+theorem struct_bytes_ptrs (fs : Fields) (vs : Vals) (fl : Flags)
+    (hty : tyOK3 (.struct fs) = true) (hp : ptrsOKs3 fs vs = true) (hv : hasTypes3 fs vs = true)
+    (hz : fl.zigzag = false) (hlen : (encode (.struct (fieldsOf 1 fs)) (.struct vs) fl).length < 2 ^ 64) :
+    encode (.struct (fieldsOf 1 fs)) (.struct vs) fl = encRecs (allRecords3 fl.wantzero fs vs) :=
+  Lemmas.ProtoPtrs.struct_bytes_ptrs fs vs fl hty hp hv hz hlen
+
+open Lemmas.ProtoWire Lemmas.ProtoPtrs in
+/-- bytes, with maps -/
+theorem struct_bytes_maps_ptrs (fs : Fields) (vs : Vals) (fl : Flags)
+    (hty : tyOKM3 (.struct fs) = true) (hp : ptrsOKs3 fs vs = true) (hv : hasTypesM3 fs vs = true)
+    (hz : fl.zigzag = false) (hlen : (encode (.struct (fieldsOf 1 fs)) (.struct vs) fl).length < 2 ^ 64) :
+    encode (.struct (fieldsOf 1 fs)) (.struct vs) fl = encRecs (allRecordsM3 fl.wantzero fs vs) :=
+  Lemmas.ProtoPtrs.struct_bytes_maps_ptrs fs vs fl hty hp hv hz hlen
+
+open Lemmas.ProtoPtrs in
+/-- the reference decodes to the same values (up to the canonical form) -/
+theorem reference_decodes_marshal_partial_ptrs (fs : Fields) (v : Val)
+    (hty : tyOK3 (.struct fs) = true) (hp : ptrsOK3 (.struct fs) v = true) (hv : hasType3 (.struct fs) v = true)
+    (hne : noEmptyPtr3 (.struct fs) v = true) (hlen : (marshal (.struct fs) v).length < 2 ^ 64) :
+    (Spec.Protobuf.decode (.struct fs) (marshal (.struct fs) v)).map (Spec.Protobuf.canonical (.struct fs))
+      = some (Spec.Protobuf.canonical (.struct fs) v) :=
+  Lemmas.ProtoPtrs.reference_decodes_marshal_partial_ptrs fs v hty hp hv hne hlen
+
+open Lemmas.ProtoPtrs in
+/-- … and with maps -/
+theorem reference_decodes_marshal_maps_partial_ptrs (fs : Fields) (v : Val)
+    (hty : tyOKM3 (.struct fs) = true) (hp : ptrsOK3 (.struct fs) v = true) (hv : hasTypeM3 (.struct fs) v = true)
+    (hne : valOKM3 (.struct fs) v = true) (hlen : (marshal (.struct fs) v).length < 2 ^ 64) :
+    (Spec.Protobuf.decode (.struct fs) (marshal (.struct fs) v)).map (Spec.Protobuf.canonical (.struct fs))
+      = some (Spec.Protobuf.canonical (.struct fs) v) :=
+  Lemmas.ProtoPtrs.reference_decodes_marshal_maps_partial_ptrs fs v hty hp hv hne hlen
+
+open Lemmas.ProtoPtrs in
+/-- both ways, second half: every byte string the reference accepts -/
+theorem unmarshal_of_reference_decode_ptrs (fs : Fields) (hty : tyOK3 (.struct fs) = true) (b : Bytes) (v : Val)
+    (hdep : Codec.nesting (codecOf (.struct fs)) ≤ Gen.c_proto_maxDepth)
+    (h : Spec.Protobuf.decode (.struct fs) b = some v) : unmarshal (.struct fs) b = .ok v :=
+  Lemmas.ProtoPtrs.unmarshal_of_reference_decode_ptrs fs hty b v hdep h
+
+open Lemmas.ProtoLiberal Lemmas.ProtoPtrs in
+/-- … and the exact characterisation of the difference -/
+theorem unmarshal_iff_reference_decode_ptrs (fs : Fields) (hty : tyOK3 (.struct fs) = true)
+    (hna : noArr3 (.struct fs) = true) (b : Bytes) (v : Val)
+    (hdep : Codec.nesting (codecOf (.struct fs)) ≤ Gen.c_proto_maxDepth)
+    (hz : ¬ ZeroNum (rfields fs) b) :
+    unmarshal (.struct fs) b = .ok v ↔ Spec.Protobuf.decode (.struct fs) b = some v :=
+  Lemmas.ProtoPtrs.unmarshal_iff_reference_decode_ptrs fs hty hna b v hdep hz
+
+open Lemmas.ProtoPtrs in
+/-- … with maps -/
+theorem unmarshal_of_reference_decode_maps_partial_ptrs (fs : Fields) (hty : tyOKM3 (.struct fs) = true) (b : Bytes)
+    (v : Val) (hne : noEmptyEntry3 (.struct fs) b = true)
+    (hdep : Codec.nesting (codecOf (.struct fs)) ≤ Gen.c_proto_maxDepth)
+    (h : Spec.Protobuf.decode (.struct fs) b = some v) : unmarshal (.struct fs) b = .ok v :=
+  Lemmas.ProtoPtrs.unmarshal_of_reference_decode_maps_partial_ptrs fs hty b v hne hdep h
+
+open Lemmas.ProtoLiberalMap Lemmas.ProtoPtrs in
+theorem unmarshal_accepts_reference_decode_maps_ptrs (fs : Fields) (hty : tyOKM3 (.struct fs) = true) (b : Bytes)
+    (v : Val) (hdep : Codec.nesting (codecOf (.struct fs)) ≤ Gen.c_proto_maxDepth)
+    (h : Spec.Protobuf.decode (.struct fs) b = some v) :
+    ∃ v', unmarshal (.struct fs) b = .ok v' ∧ sh v v' = true :=
+  Lemmas.ProtoPtrs.unmarshal_accepts_reference_decode_maps_ptrs fs hty b v hdep h
+
+open Lemmas.ProtoPtrs in
+/-- non-vacuity: the example types of C03 (`exPFields`: `[]*Item`, `**Item`, `map[string]*Item`, `[]*int32`, `***int64`,
+`map[int32]**Item`, `[]**Item`; `exQFields`: `struct{ L []*int32; P **int32 }`) -/
+example : tyOKM3 (.struct exPFields) = true ∧ ptrsOKs3 exPFields exPVals = true ∧ hasTypesM3 exPFields exPVals = true
+    ∧ Codec.nesting (codecOf (.struct exPFields)) ≤ Gen.c_proto_maxDepth :=
+  ⟨exP_hyps.1, by simpa only [ptrsOK3, ptrsOKs3, Lemmas.ProtoNamed.erase, ptrsOK] using exP_hyps.2.1,
+   by simpa only [hasTypeM3, hasTypesM3, rty_struct, rval_struct, Lemmas.ProtoMap.hasTypeM] using exP_hyps.2.2.1, exP_hyps.2.2.2.2.2⟩
+
+open Lemmas.ProtoPtrs in
+/-- `unmarshal_of_reference_decode_ptrs` on `struct{ L []*int32; P **int32 }` and the input `10 85 00 08 03` (fields out
+of order, non-minimal varint): `{L: {&3}, P: &&5}` -/
+example : unmarshal (.struct exQFields) [0x10, 0x85, 0x00, 0x08, 0x03]
+    = .ok (.struct (Vals.ofList [.list (Vals.ofList [.ptr (.int 3)]), .ptr (.ptr (.int 5))])) :=
+  unmarshal_of_reference_decode_ptrs exQFields exQ_hyps.1 _ _ exQ_hyps.2.2.2.2.2 exQ_ref
 
 end Enc.Props.C12
